@@ -8,12 +8,16 @@ Hand-written executable model of the canonical-site / strand code of /repo (prop
   src/alignment_processor.py   AlignmentCollector.get_assignment_strand
   src/graph_based_model_construction.py   the strand decision / reporting filter of novel models in
                          construct_fl_isoforms, select_reference_gene
+  src/gene_info.py       GeneInfo.set_gene_attributes (transcript level; skip lists: IsoVerif/Gen/GeneAttributes.lean, generated),
+                         TranscriptModel.additional_info (OrderedDict)
+  src/transcript_printer.py   the attribute list of the transcript line written by GFFPrinter.dump
 
 Core Lean only.  A reference sequence is a `List Char`; Python `str` slicing (negative indices, clamping) is
 `pySlice`.  Dicts are association lists whose newest entry wins (`List.lookup`), mutation through
 `self`/`gene_info` is a returned state.  The strand argument is one of '+', '-', '.'.
 -/
 import IsoVerif.Gen.Constants
+import IsoVerif.Gen.GeneAttributes
 import IsoVerif.Model.Interval
 
 namespace IsoVerif.Model.C18
@@ -307,6 +311,86 @@ def readCanonicalField (checkCanonical : Bool) (g : GeneRef) (readExons : List I
       let r := checkSites g introns strand σ
       (some (boolStr r.1), r.2)
   else (none, σ)
+
+/-! ### the attribute list of a printed transcript line
+
+`GFFPrinter.dump` writes `gene_id "g"; transcript_id "t"; ` + the model's own `additional_info` (an `OrderedDict`:
+`Canonical` from `add_canonical_info_for_model`, `exons` from `dump`, `similar_reference_id` / `alternatives` from the model
+constructor) + `gene_info.feature_attributes[t]`, the text `GeneInfo.set_gene_attributes` builds from the attributes of the
+REFERENCE transcript with that id: every attribute that is not in a fixed skip list, first value only. -/
+
+/-- an attribute list as it is printed: `key "value";` items in line order -/
+abbrev AttrList := List (String × String)
+
+/-- the attributes of a reference feature as gffutils hands them on: key → list of values (keys in line order, the values
+    of a repeated key collected under its first occurrence; an empty list for `key "";`) -/
+abbrev RefAttrs := List (String × List String)
+
+/-- `attribute in self.additional_info` (`TranscriptModel.check_additional`) -/
+def checkAdditional (info : AttrList) (k : String) : Bool := info.any fun e => e.1 == k
+
+/-- `self.additional_info[attribute] = value` on an `OrderedDict`: an existing key keeps its place -/
+def setAttr : AttrList → String → String → AttrList
+  | [], k, v => [(k, v)]
+  | e :: rest, k, v => if e.1 = k then (k, v) :: rest else e :: setAttr rest k v
+
+/-- the fields of a `TranscriptModel` the GTF printer and `add_canonical_info_for_model` read -/
+structure PModel where
+  geneId : String
+  transcriptId : String
+  exons : List Iv
+  strand : Strand
+  info : AttrList                         -- `additional_info.items()`
+  deriving Repr
+
+/-- `add_canonical_info_for_model(model, gene_info)` on the whole `additional_info` -/
+def addCanonicalInfoForModelP (g : GeneRef) (m : PModel) (σ : CanonMemo) : PModel × CanonMemo :=
+  if g.refRegion.isEmpty then (m, σ)
+  else if checkAdditional m.info CANONICAL_KEY then (m, σ)
+  else
+    let introns := junctionsFromBlocks m.exons
+    if introns.length = 0 then ({ m with info := setAttr m.info CANONICAL_KEY "Unspliced" }, σ)
+    else
+      let r := checkSites g introns m.strand σ
+      ({ m with info := setAttr m.info CANONICAL_KEY (boolStr r.1) }, r.2)
+
+/-- the transcript-level loop of `GeneInfo.set_gene_attributes`: `for attr in t.attributes.keys(): if attr in SKIP: continue;
+    if t.attributes[attr]: feature_attributes[t.id] += '%s "%s"; ' % (attr, t.attributes[attr][0])` -/
+def copyLoop (skip : List String) : RefAttrs → AttrList
+  | [] => []
+  | (k, vs) :: rest =>
+    if skip.contains k then copyLoop skip rest
+    else match vs with
+      | [] => copyLoop skip rest
+      | v :: _ => (k, v) :: copyLoop skip rest
+
+/-- the attribute column of the transcript line of `GFFPrinter.dump`; `ref` = the attributes of the reference transcript
+    whose id is the model's id (`none`: no such reference transcript in this `gene_info`) -/
+def transcriptLineAttrs (skip : List String) (m : PModel) (ref : Option RefAttrs) : AttrList :=
+  let info := if checkAdditional m.info EXONS_KEY then m.info else setAttr m.info EXONS_KEY (toString m.exons.length)
+  [("gene_id", m.geneId), ("transcript_id", m.transcriptId)] ++ info ++
+    (match ref with
+     | none => []
+     | some r => copyLoop skip r)
+
+/-- one model through `add_canonical_info` (iff `--check_canonical`) and `dump` -/
+def printTranscriptLine (skip : List String) (check : Bool) (g : GeneRef) (m : PModel) (ref : Option RefAttrs)
+    (σ : CanonMemo) : AttrList × CanonMemo :=
+  let r := if check then addCanonicalInfoForModelP g m σ else (m, σ)
+  (transcriptLineAttrs skip r.1 ref, r.2)
+
+/-- `add_canonical_info(storage, gene_info)` (iff `--check_canonical`) followed by `dump(gene_info, storage)`: the attribute
+    lists of the transcript lines of a whole model storage, one memo -/
+def printStorage (skip : List String) (check : Bool) (g : GeneRef) :
+    List (PModel × Option RefAttrs) → CanonMemo → List AttrList × CanonMemo
+  | [], σ => ([], σ)
+  | m :: ms, σ =>
+    let r := printTranscriptLine skip check g m.1 m.2 σ
+    let rs := printStorage skip check g ms r.2
+    (r.1 :: rs.1, rs.2)
+
+/-- the transcript skip list before `Canonical` was added to it -/
+def transcriptSkipOrig : List String := TRANSCRIPT_ATTR_SKIP.filter fun k => k != CANONICAL_KEY
 
 /-! ### src/graph_based_model_construction.py  strand of a novel model in construct_fl_isoforms -/
 
